@@ -58,7 +58,7 @@ func genCost(t *rapid.T) string {
 	case 5, 6: // an integer written with a decimal point
 		return intPart() + "." + strings.Repeat("0", rapid.IntRange(0, 15).Draw(t, "zeros"))
 	case 7, 8: // a fraction
-		k := rapid.IntRange(1, 12).Draw(t, "fracLen")
+		k := rapid.SampledFrom([]int{1, 1, 2, 2, 3, 4, 6, 8, 9, 10, 11, 12, 15, 18}).Draw(t, "fracLen")
 		f := rapid.StringOfN(rapid.RuneFrom([]rune("0123456789")), k, k, k).Draw(t, "frac")
 		ip := "0"
 		if rapid.Bool().Draw(t, "withInt") {
@@ -299,15 +299,23 @@ func judgeAgree(c agreeCase) *h.Verdict {
 		}
 		ratingPeer = p
 	}
-	sua, err := sendSUR(ratingPeer, supi, 1, 2, 1, 0, 2*time.Second)
-	if err != nil || sua == nil || sua.ServiceRating == nil {
-		if err != nil {
-			ratingPeer.Close()
-			ratingPeer = nil
+	// what the server applies per unit: the price of 1 unit and of several units (N x the same unit cost)
+	applied := uint32(0)
+	prices := map[uint32]uint32{}
+	for _, n := range []uint32{1, 2, 3, 10, 1000} {
+		sua, err := sendSUR(ratingPeer, supi, 1, 2, n, 0, 2*time.Second)
+		if err != nil || sua == nil || sua.ServiceRating == nil {
+			if err != nil {
+				ratingPeer.Close()
+				ratingPeer = nil
+			}
+			return v.Failf("no-answer/cost:"+cls, "DEBIT of %d units against unit cost %q: %v %v", n, c.Cost, sua, err)
 		}
-		return v.Failf("no-answer/cost:"+cls, "DEBIT of 1 unit against unit cost %q: %v %v", c.Cost, sua, err)
+		prices[n] = uint32(sua.ServiceRating.Price)
+		if n == 1 {
+			applied = prices[1]
+		}
 	}
-	applied := uint32(sua.ServiceRating.Price)
 	now := time.Now()
 	nf := &models.ChfConvergedChargingNfIdentification{NFName: "smf", NodeFunctionality: "SMF"}
 	_, loc, pd := verifapi.Create(models.ChfConvergedChargingChargingDataRequest{SubscriberIdentifier: supi, ChargingId: 1, NfConsumerIdentification: nf, InvocationTimeStamp: &now, InvocationSequenceNumber: 1})
@@ -324,6 +332,11 @@ func judgeAgree(c agreeCase) *h.Verdict {
 	snap := verifapi.Snapshot(supi)
 	if snap.UnitCost[1] != applied {
 		return v.Failf("tariff-disagreement/cost:"+cls, "stored unit cost %q: the rating server prices 1 unit at %d, the CHF decoded unit cost %d from the server's tariff", c.Cost, applied, snap.UnitCost[1])
+	}
+	for _, n := range []uint32{2, 3, 10, 1000} {
+		if want := uint64(n) * uint64(snap.UnitCost[1]); want < 1<<32 && uint64(prices[n]) != want {
+			return v.Failf("tariff-disagreement-several-units/cost:"+cls, "stored unit cost %q: the rating server prices %d units at %d; with the unit cost %d the CHF decoded from the server's tariff they cost %d", c.Cost, n, prices[n], snap.UnitCost[1], want)
+		}
 	}
 	return v
 }
